@@ -719,8 +719,19 @@ func c17Run(ctx *core.Ctx, idx int, dotu bool, steps int) core.Result {
 			}
 			st := noTouch()
 			st.Mtime = t
+			if fi, _ := os.Lstat(filepath.Join(twin, f)); fi != nil && r.Intn(2) == 0 {
+				// a new length in the same request: the file ends up with that length and the time asked for
+				nl := []int64{0, fi.Size() / 2, fi.Size() + 1, fi.Size() + 150, 1}[r.Intn(5)]
+				if nl != fi.Size() {
+					st.Length = uint64(nl)
+					argc += ";with-length"
+					perr = os.Truncate(filepath.Join(twin, f), nl)
+				}
+			}
 			rep = rw.rpc(&wire.Msg{Type: wire.Twstat, Fid: fid, Stat: st})
-			perr = os.Chtimes(filepath.Join(twin, f), time.Unix(int64(t), 0), time.Unix(int64(t), 0))
+			if e := os.Chtimes(filepath.Join(twin, f), time.Unix(int64(t), 0), time.Unix(int64(t), 0)); perr == nil {
+				perr = e
+			}
 			mtimes[f] = true
 		case 13: // create below something that is not there
 			op, argc = "create-file", "missing-dir"
